@@ -408,14 +408,23 @@ impl<'source> CodeGenerator<'source> {
                 self.add(Instruction::PushWith);
                 self.compile_expr(&from_import.expr);
                 self.add_with_span(Instruction::Include(false), from_import.span());
-                for (name, _) in &from_import.names {
-                    self.compile_expr(name);
-                }
+                // only what the imported template defined at its top level can be
+                // imported: the names are resolved against the exported locals and
+                // not against the surrounding context.
+                self.add(Instruction::EndCapture);
+                self.add(Instruction::ExportLocals);
                 self.add(Instruction::PopFrame);
-                for (name, alias) in from_import.names.iter().rev() {
+                for (name, alias) in &from_import.names {
+                    self.add(Instruction::DupTop);
+                    match name {
+                        ast::Expr::Var(var) => {
+                            self.add_with_span(Instruction::GetAttr(var.id), var.span());
+                        }
+                        _ => unreachable!(),
+                    }
                     self.compile_assignment(alias.as_ref().unwrap_or(name));
                 }
-                self.add(Instruction::EndCapture);
+                self.add(Instruction::DiscardTop);
             }
             #[cfg(feature = "multi_template")]
             ast::Stmt::Extends(extends) => {
